@@ -78,14 +78,14 @@ type variation struct {
 	name string
 	env  []string
 	db   string
-	mode string // process history of the replica: plain | restart | restart-all | sim | sim-restart
+	mode string // process history of the replica: plain | restart | restart-all | sim | sim-restart | statesync | statesync-all
 }
 
 var variations = []variation{
 	{"procs1-utc", []string{"GOMAXPROCS=1", "TZ=UTC"}, "", "plain"},
 	{"procs4-tokyo-gogc10-sim", []string{"GOMAXPROCS=4", "TZ=Asia/Tokyo", "GOGC=10"}, "", "sim"},
 	{"procs16-newyork-leveldb-restart", []string{"GOMAXPROCS=16", "TZ=America/New_York", "GODEBUG=madvdontneed=1"}, "goleveldb", "restart"},
-	{"procs2-kiritimati-gogc1", []string{"GOMAXPROCS=2", "TZ=Pacific/Kiritimati", "GOGC=1"}, "", "plain"},
+	{"procs2-kiritimati-gogc1-statesync", []string{"GOMAXPROCS=2", "TZ=Pacific/Kiritimati", "GOGC=1"}, "", "statesync-all"},
 	{"procs8-abidjan-nopreempt-simrestart", []string{"GOMAXPROCS=8", "TZ=Africa/Abidjan", "GODEBUG=asyncpreemptoff=1"}, "", "sim-restart"},
 	{"procs32-lordhowe-gogc400-leveldb-restartall", []string{"GOMAXPROCS=32", "TZ=Australia/Lord_Howe", "GOGC=400"}, "goleveldb", "restart-all"},
 }
@@ -93,7 +93,7 @@ var variations = []variation{
 // in-process replicas of every history (besides the generator's own instance, which also served the generator's
 // state reads and gas simulations): >= 8 executions in one process so that Go's per-range-statement randomisation of
 // map iteration gets enough draws, and every process-history mode is covered.
-var inprocModes = []string{"plain", "restart-all", "sim", "plain", "restart", "plain", "sim-restart", "plain"}
+var inprocModes = []string{"plain", "restart-all", "sim", "statesync", "restart", "plain", "sim-restart", "plain"}
 
 func runChild(v variation, idx int, histPath, workDir string) ([]string, string, error) {
 	return runChildBin(os.Args[0], v, idx, histPath, workDir)
@@ -210,11 +210,11 @@ func compare(out *hx.Out, h *detx.History, kinds [][]string, histPath, refName s
 		fields := detx.DiffFields(a, b)
 		consensus := false
 		for _, f := range fields {
-			if f == "apphash" || f == "results" || f == "valupd" || f == "h" || f == "ntx" || f == "err" || f == "gas" || f == "codes" || f == "stores" {
+			if f == "apphash" || f == "results" || f == "valupd" || f == "h" || f == "ntx" || f == "err" || f == "gas" || f == "codes" || f == "stores" || f == "inject" {
 				consensus = true
 			}
 		}
-		cls := "non-consensus observation (events/log)"
+		cls := "non-consensus observation (events/log)" // `inject` = outcome digest of the routed messages (EVM return data, gas, logs, events): what a transaction result carries
 		if consensus {
 			cls = "consensus-relevant digest"
 		}
@@ -272,7 +272,7 @@ func TestC17(t *testing.T) {
 		}
 	}
 	var lastGen *gen
-	var probes, tallies [][2]string
+	var probes, tallies, vlists [][2]string
 	executions := 0
 	for hi := 0; hi < nHist; hi++ {
 		hseed := seed*1000 + int64(hi)
@@ -282,6 +282,7 @@ func TestC17(t *testing.T) {
 		lastGen = g
 		probes = append(probes, g.probes...)
 		tallies = append(tallies, g.tallies...)
+		vlists = append(vlists, g.vlists...)
 		ref := []string{fmt.Sprintf("h=0 apphash=%x", g.c.InitResp.AppHash)}
 		okBlocks := 0
 		for i, o := range g.obs {
@@ -398,6 +399,12 @@ func TestC17(t *testing.T) {
 		out.Emit(pr[0], pr[1])
 		out.Nontrivial("tally:" + pr[1][:min(len(pr[1]), 10)])
 	}
+	// validatorList(missed): the real precompile's output must meet the contract of a sort for the regenerated comparator
+	out.Reset("models-validatorlist")
+	for _, pr := range vlists {
+		out.Emit(pr[0], pr[1])
+		out.Nontrivial("validatorlist:" + strconv.Itoa(len(pr[0])/200))
+	}
 	modelOps(t, out, seed, lastGen)
 }
 
@@ -495,6 +502,164 @@ func modelOps(t *testing.T, out *hx.Out, seed int64, g *gen) {
 		if new(big.Int).Add(new(big.Int).SetUint64(a), new(big.Int).SetUint64(b)).Cmp(v) != 0 {
 			out.Nontrivial(fmt.Sprintf("f64add-rounded:%d", v.BitLen()))
 		}
+	}
+
+
+	// ---- the tail of PowerDiff: one float division and "%.8f" against the Lean model (fdiv / fmtFixed), boundary-biased:
+	// multiples of the divisor, numerators around decimal ties of the eighth digit, powers of two, the 2^53 end of the range
+	out.Reset("models-render")
+	const D = uint64(math.MaxUint32)
+	pickN := func() uint64 {
+		switch rng.Intn(8) {
+		case 0:
+			return uint64(rng.Intn(1<<21)) * D // exact quotients
+		case 1: // n/D just around (j + 0.5) * 1e-8: the rounding boundary of the eighth decimal
+			j := new(big.Int).SetUint64(uint64(rng.Int63n(1 << 40)))
+			num := new(big.Int).Mul(new(big.Int).Add(new(big.Int).Mul(j, big.NewInt(2)), big.NewInt(1)), new(big.Int).SetUint64(D))
+			num.Div(num, big.NewInt(200_000_000))
+			n := num.Uint64() + uint64(rng.Intn(3))
+			if n > 0 {
+				n--
+			}
+			return n % (1 << 53)
+		case 2:
+			return (uint64(1) << uint(rng.Intn(53))) + uint64(rng.Intn(3)) - 1
+		case 3:
+			return (uint64(1) << 53) - 1 - uint64(rng.Intn(1000))
+		case 4:
+			return uint64(rng.Intn(100))
+		case 5: // around the default 10% threshold and around 100%
+			return []uint64{429496708, 429496709, 429496729, 429496730, D - 1, D, D + 1, 42949672, 42949673}[rng.Intn(9)]
+		default:
+			return uint64(rng.Int63n(1 << 53))
+		}
+	}
+	for i := 0; i < hx.N(400, 4000); i++ {
+		n := pickN()
+		got := fmt.Sprintf("%.8f", float64(n)/float64(math.MaxUint32))
+		out.Emit(fmt.Sprintf("render %d", n), got)
+		out.Count("render")
+		// the exact rational rounded half-even to 8 decimals, computed with big integers: where the two roundings of the code
+		// (53-bit quotient, then 8 decimals) differ from the single exact rounding is worth counting
+		num := new(big.Int).Mul(new(big.Int).SetUint64(n), big.NewInt(100_000_000))
+		q, r := new(big.Int).QuoRem(num, new(big.Int).SetUint64(D), new(big.Int))
+		if r2 := new(big.Int).Mul(r, big.NewInt(2)); r2.Cmp(new(big.Int).SetUint64(D)) > 0 || (r2.Cmp(new(big.Int).SetUint64(D)) == 0 && q.Bit(0) == 1) {
+			q.Add(q, big.NewInt(1))
+		}
+		exact := fmt.Sprintf("%d.%08d", new(big.Int).Div(q, big.NewInt(100_000_000)), new(big.Int).Mod(q, big.NewInt(100_000_000)))
+		if exact != got {
+			out.Nontrivial("render-double-rounding")
+			out.Count("render:differs-from-exact-rational-rounding")
+		} else {
+			out.Nontrivial(fmt.Sprintf("render:%d", len(got)))
+		}
+	}
+	// the whole step: PowerDiff (float accumulation in map order) -> "%.8f" -> LegacyDec -> >= min(percent, 1): the three
+	// statements of isNeedOracleSetRequest (an unexported method) applied to the real PowerDiff
+	out.Reset("models-needset")
+	for i := 0; i < hx.N(150, 1500); i++ {
+		nb, nc := 1+rng.Intn(8), rng.Intn(8)
+		if i%6 == 0 {
+			nb, nc = 20+rng.Intn(80), 20+rng.Intn(80)
+		}
+		pool := 1 + rng.Intn(nb+nc)
+		b, c := genVals(nb, pool, rng.Intn(4)), genVals(nc, pool, rng.Intn(4))
+		if i%4 == 0 { // a small change of an existing set: the region around the threshold
+			c = append(crosschaintypes.BridgeValidators{}, b...)
+			k := rng.Intn(len(c))
+			c[k].Power += uint64(rng.Intn(1 << 29))
+			if c[k].Power > math.MaxUint32 {
+				c[k].Power = math.MaxUint32
+			}
+		}
+		pct := sdkmath.LegacyNewDecWithPrec(int64(rng.Intn(30)), 2)
+		switch rng.Intn(5) {
+		case 0:
+			pct = sdkmath.LegacyNewDecWithPrec(int64(rng.Intn(2_000_000_000)), 9)
+		case 1:
+			pct = sdkmath.LegacyNewDec(int64(1 + rng.Intn(3))) // above 1: capped
+		case 2:
+			pct = sdkmath.LegacyZeroDec()
+		}
+		rendered := fmt.Sprintf("%.8f", b.PowerDiff(c))
+		dec, err := sdkmath.LegacyNewDecFromStr(rendered)
+		obs := "err:dec"
+		if err == nil {
+			limit := pct
+			if limit.GT(sdkmath.LegacyOneDec()) {
+				limit = sdkmath.LegacyOneDec()
+			}
+			obs = fmt.Sprintf("%s:%v", rendered, dec.GTE(limit))
+			out.Nontrivial(fmt.Sprintf("needset:%v:%d", dec.GTE(limit), len(rendered)))
+		}
+		// the model refuses inputs outside the keeper's range (a merged difference above 2^32: an address several times in c)
+		merged := map[string]int64{}
+		for _, v := range b {
+			merged[v.ExternalAddress] = int64(v.Power)
+		}
+		for _, v := range c {
+			merged[v.ExternalAddress] -= int64(v.Power)
+		}
+		for _, v := range merged {
+			if v > 1<<32 || v < -(1<<32) {
+				obs = "err:out-of-range"
+				out.Count("needset:out-of-range")
+			}
+		}
+		out.Emit(fmt.Sprintf("needset %s %s | %s", pct.BigInt().String(), fmtVals(b), fmtVals(c)), obs)
+		out.Count("needset")
+	}
+	// NewOracleSet: the stored member order against the interpreted comparator program; equal powers are the interesting
+	// case (tie-break on the external address), members arrive in a shuffled order
+	out.Reset("models-oracleset")
+	for i := 0; i < hx.N(120, 1200); i++ {
+		n := 1 + rng.Intn(12)
+		if i%10 == 0 {
+			n = 50 + rng.Intn(100)
+		}
+		var ms crosschaintypes.BridgeValidators
+		powers := []uint64{uint64(rng.Intn(5)), uint64(rng.Int63n(math.MaxUint32)), math.MaxUint32 / uint64(n+1)}
+		for k := 0; k < n; k++ {
+			p := powers[rng.Intn(len(powers))]
+			if rng.Intn(4) == 0 {
+				p = uint64(rng.Int63n(math.MaxUint32))
+			}
+			ms = append(ms, crosschaintypes.BridgeValidator{Power: p, ExternalAddress: fmt.Sprintf("0x%040x", rng.Uint64()>>uint(rng.Intn(60)))})
+		}
+		if rng.Intn(5) == 0 && n > 1 {
+			ms[n-1] = ms[0] // an identical member twice
+		}
+		in := fmtVals(ms)
+		ties := map[uint64]int{}
+		for _, m := range ms {
+			ties[m.Power]++
+		}
+		maxTie := 0
+		for _, c := range ties {
+			if c > maxTie {
+				maxTie = c
+			}
+		}
+		var first string
+		for r := 0; r < 4; r++ { // the same members in another arrival order must be stored identically
+			cp := append(crosschaintypes.BridgeValidators{}, ms...)
+			rng.Shuffle(len(cp), func(x, y int) { cp[x], cp[y] = cp[y], cp[x] })
+			set := crosschaintypes.NewOracleSet(uint64(i+1), 1, cp)
+			var as []string
+			for _, m := range set.Members {
+				as = append(as, m.ExternalAddress)
+			}
+			got := strings.Join(as, ",")
+			if r == 0 {
+				first = got
+			} else if got != first {
+				out.Violate(fmt.Sprintf("nondeterminism: NewOracleSet stores the same %d members (largest group of equal powers: %d) in different orders depending on their arrival order", n, maxTie))
+				break
+			}
+		}
+		out.Emit("oracleset "+in, first)
+		out.Count("oracleset")
+		out.Nontrivial(fmt.Sprintf("oracleset:ties=%d", min(maxTie, 4)))
 	}
 
 	// ---- GetSupportChains: sorted, stable across calls
